@@ -204,6 +204,7 @@ type Options struct {
 	SamePkgConflict    bool // two files of one package using one simple name through different imports
 	Services           bool // *Service classes with long parameter lists sharing parameter names
 	Nested             bool // nested interface / static class members (beyond the conventional subset)
+	Enums              bool // an enum file with field, constructor and method (beyond the conventional subset)
 	ServiceMethod      bool // @ServiceMethod on interface methods (coca reports their implementations as APIs); differential checks only
 }
 
@@ -361,6 +362,23 @@ func GenProject(t *tape.Tape, o Options) *Project {
 		f.Render()
 		p.Files = append(p.Files, f)
 	}
+	if o.Enums && t.Bool(1, 2) {
+		// an enum with a field, a constructor and a method as top-level type (beyond the conventional
+		// subset; differential checks only): nothing of it may reach the file analysed next
+		pkg := g.classes[t.Pick(len(g.classes))].pkg
+		name := g.pick([]string{"OrderStatus", "Colour", "Mode"})
+		var b []string
+		b = append(b, "package "+pkg+";", "", "public enum "+name+" {", "    OPEN(\"o\"), CLOSED(\"c\");", "", "    private final String label;", "")
+		b = append(b, "    "+name+"(String label) {", "        this.label = label;", "    }", "")
+		if t.Bool(1, 2) {
+			b = append(b, "    @Override")
+		}
+		b = append(b, "    public String "+g.pick([]string{"getLabel", "toString", "run"})+"() {", "        return label;", "    }", "}")
+		f := &JFile{ID: fmt.Sprintf("f%d", len(p.Files)), Pkg: pkg, Name: name, Kind: "enum"}
+		f.Path = strings.ReplaceAll(pkg, ".", "/") + "/" + name + ".java"
+		f.Text = strings.Join(b, "\n") + "\n"
+		p.Files = append(p.Files, f)
+	}
 	return p
 }
 
@@ -439,8 +457,11 @@ func (g *gctx) genFile(fi int) *JFile {
 			case 0:
 			case 1:
 				base = "/" + strings.ToLower(ci.name)
-				if t.Bool(1, 5) {
+				switch t.Pick(6) {
+				case 0:
 					base = "/api/v1/" + strings.ToLower(ci.name)
+				case 1:
+					base = "/api/" + strings.ToLower(ci.name) + "/" // trailing slash: concatenated as written
 				}
 				f.Annotations = append(f.Annotations, fmt.Sprintf("@RequestMapping(%q)", base))
 			case 2:
